@@ -424,6 +424,15 @@ func core3Prepare(named map[string]*types.StructType, a []string) (*ir.Func, fun
 	var params []*ir.Param
 	locals := map[c3ident]value.Value{}
 	key := func(i c3ident) c3ident { return i }
+	// a trailing `|...` (or `...` alone) in the parameter field marks a variadic function
+	variadic := a[2] == "..." || strings.HasSuffix(a[2], "|...")
+	if variadic {
+		a = append([]string{}, a...)
+		a[2] = strings.TrimSuffix(strings.TrimSuffix(a[2], "..."), "|")
+		if a[2] == "" {
+			a[2] = "-"
+		}
+	}
 	if a[2] != "-" {
 		for _, ps := range strings.Split(a[2], "|") {
 			// `<ty>~<ident>[~<i>,<i>…]`: the third field lists the parameter attributes as positions in the model's list `kParamAttr`
@@ -449,6 +458,7 @@ func core3Prepare(named map[string]*types.StructType, a []string) (*ir.Func, fun
 	nameHex, lead, _ := strings.Cut(a[1], "~")
 	lead, tail, _ := strings.Cut(lead, "~")
 	fn := ir.NewFunc(string(unhexArg(nameHex)), ret, params...)
+	fn.Sig.Variadic = variadic
 	// the clauses behind the parameter list: `u<i>` unnamed_addr / local_unnamed_addr, `a<n>` addrspace, `k<i>,…` attributes (positions in the model's list
 	// `kFuncAttr`), `s<hex>` section, `p<hex>` partition, `l<n>` align, `g<hex>` gc
 	if tail != "" {
